@@ -1,4 +1,214 @@
-use crate::{ctx::CaseOut, Params};
-pub fn case(_idx: u64, _seed: u64, _p: &Params, o: &mut CaseOut) {
-    o.skipped = true;
+//! C16 — conversions between representations preserve the digraph.
+
+use crate::ctx::CaseOut;
+use crate::gen;
+use crate::model::Model;
+use crate::obs::{observe, observe_w};
+use crate::reprs::*;
+use crate::rng::{Fp, Rng};
+use crate::Params;
+use graaf::*;
+use std::collections::{BTreeMap, BTreeSet};
+
+pub const TYPES: [&str; 4] = ["AdjacencyList", "AdjacencyMap", "AdjacencyMatrix", "EdgeList"];
+
+#[derive(Clone, PartialEq, Eq, Debug)]
+enum Any {
+    AL(AdjacencyList),
+    AM(AdjacencyMap),
+    MX(AdjacencyMatrix),
+    EL(EdgeList),
+}
+
+fn build_any(k: usize, m: &Model) -> Any {
+    match k {
+        0 => Any::AL(AdjacencyList::build(m)),
+        1 => Any::AM(AdjacencyMap::build(m)),
+        2 => Any::MX(AdjacencyMatrix::build(m)),
+        _ => Any::EL(EdgeList::build(m)),
+    }
+}
+
+fn kind(a: &Any) -> usize {
+    match a {
+        Any::AL(_) => 0,
+        Any::AM(_) => 1,
+        Any::MX(_) => 2,
+        Any::EL(_) => 3,
+    }
+}
+
+fn convert(a: &Any, to: usize) -> Any {
+    macro_rules! conv {
+        ($d:expr, $same:expr) => {
+            match to {
+                0 => Any::AL(AdjacencyList::from($d.clone())),
+                1 => Any::AM(AdjacencyMap::from($d.clone())),
+                2 => Any::MX(AdjacencyMatrix::from($d.clone())),
+                _ => Any::EL(EdgeList::from($d.clone())),
+            }
+        };
+    }
+    match a {
+        Any::AL(d) => match to {
+            0 => Any::AL(d.clone()),
+            1 => Any::AM(AdjacencyMap::from(d.clone())),
+            2 => Any::MX(AdjacencyMatrix::from(d.clone())),
+            _ => Any::EL(EdgeList::from(d.clone())),
+        },
+        Any::AM(d) => match to {
+            1 => Any::AM(d.clone()),
+            0 => Any::AL(AdjacencyList::from(d.clone())),
+            2 => Any::MX(AdjacencyMatrix::from(d.clone())),
+            _ => Any::EL(EdgeList::from(d.clone())),
+        },
+        Any::MX(d) => match to {
+            2 => Any::MX(d.clone()),
+            0 => Any::AL(AdjacencyList::from(d.clone())),
+            1 => Any::AM(AdjacencyMap::from(d.clone())),
+            _ => Any::EL(EdgeList::from(d.clone())),
+        },
+        Any::EL(d) => match to {
+            3 => Any::EL(d.clone()),
+            0 => Any::AL(AdjacencyList::from(d.clone())),
+            1 => Any::AM(AdjacencyMap::from(d.clone())),
+            _ => Any::MX(AdjacencyMatrix::from(d.clone())),
+        },
+    }
+}
+
+fn obs_any(a: &Any, m: &Model, o: &mut CaseOut, tag: &str) {
+    match a {
+        Any::AL(d) => observe(d, m, o, tag, m.n() <= 20),
+        Any::AM(d) => observe(d, m, o, tag, m.n() <= 20),
+        Any::MX(d) => observe(d, m, o, tag, m.n() <= 20),
+        Any::EL(d) => observe(d, m, o, tag, m.n() <= 20),
+    }
+}
+
+fn weighted(a: &Any, m: &Model, o: &mut CaseOut) {
+    let mut unit = m.clone();
+    for w in unit.arcs.values_mut() {
+        *w = 1;
+    }
+    macro_rules! both {
+        ($d:expr, $n:expr) => {{
+            let wu = AdjacencyListWeighted::<usize>::from($d.clone());
+            observe(&wu, &unit, o, &format!("AdjacencyListWeighted<usize>::from({})", $n), true);
+            observe_w(&wu, &unit, o, &format!("AdjacencyListWeighted<usize>::from({})", $n), |w| *w as i64);
+            let wi = AdjacencyListWeighted::<isize>::from($d.clone());
+            observe(&wi, &unit, o, &format!("AdjacencyListWeighted<isize>::from({})", $n), true);
+            observe_w(&wi, &unit, o, &format!("AdjacencyListWeighted<isize>::from({})", $n), |w| *w as i64);
+        }};
+    }
+    match a {
+        Any::AL(d) => both!(d, "AdjacencyList"),
+        Any::AM(d) => both!(d, "AdjacencyMap"),
+        Any::MX(d) => both!(d, "AdjacencyMatrix"),
+        Any::EL(d) => both!(d, "EdgeList"),
+    }
+}
+
+fn iter_builders(r: &mut Rng, m: &Model, o: &mut CaseOut) {
+    let n = m.n();
+    // rows of out-neighbour sets
+    let rows: Vec<BTreeSet<usize>> = (0..n).map(|u| m.out(u).into_iter().collect()).collect();
+    observe(&AdjacencyList::from(rows.clone()), m, o, "AdjacencyList::from(rows)", true);
+    observe(&AdjacencyMap::from(rows.clone()), m, o, "AdjacencyMap::from(rows)", true);
+    let mut mw = m.clone();
+    gen::weights(r, &mut mw, gen::WClass::MixedNeg);
+    let wrows: Vec<BTreeMap<usize, isize>> = (0..n).map(|u| mw.out_w(u).into_iter().map(|(v, w)| (v, w as isize)).collect()).collect();
+    let wd = AdjacencyListWeighted::<isize>::from(wrows);
+    observe(&wd, &mw, o, "AdjacencyListWeighted::from(rows)", true);
+    observe_w(&wd, &mw, o, "AdjacencyListWeighted::from(rows)", |w| *w as i64);
+    // arcs, with duplicates and in random order: order = largest id + 1
+    let mut arcs = m.arc_list();
+    if !arcs.is_empty() {
+        for _ in 0..r.below(4) {
+            let a = *r.pick(&arcs);
+            arcs.push(a);
+        }
+        r.shuffle(&mut arcs);
+        let top = arcs.iter().map(|&(u, v)| u.max(v)).max().unwrap() + 1;
+        let mut want = m.clone();
+        want.verts = (0..top).collect();
+        observe(&AdjacencyMatrix::from(arcs.clone()), &want, o, "AdjacencyMatrix::from(arcs)", true);
+        observe(&EdgeList::from(arcs.clone()), &want, o, "EdgeList::from(arcs)", true);
+    }
+    // invalid inputs must panic
+    if n >= 1 {
+        let u = r.below(n);
+        let mut bad = rows.clone();
+        bad[u].insert(u); // self-loop
+        let _ = o.must_panic("AdjacencyList::from(rows):self-loop-accepted", || format!("row {u} contains {u}"), || AdjacencyList::from(bad.clone()));
+        let _ = o.must_panic("AdjacencyMap::from(rows):self-loop-accepted", || format!("row {u} contains {u}"), || AdjacencyMap::from(bad.clone()));
+        let mut bad = rows.clone();
+        let far = n + r.below(3);
+        bad[u].insert(far); // head outside
+        let _ = o.must_panic("AdjacencyList::from(rows):outside-head-accepted", || format!("row {u} contains {far}, order {n}"), || AdjacencyList::from(bad.clone()));
+        let _ = o.must_panic("AdjacencyMap::from(rows):outside-head-accepted", || format!("row {u} contains {far}, order {n}"), || AdjacencyMap::from(bad.clone()));
+        let wbad: Vec<BTreeMap<usize, usize>> = bad.iter().map(|s| s.iter().map(|&v| (v, 1)).collect()).collect();
+        let _ = o.must_panic("AdjacencyListWeighted::from(rows):outside-head-accepted", || format!("row {u} contains {far}"), || AdjacencyListWeighted::<usize>::from(wbad.clone()));
+        let loopy = vec![(u, u)];
+        let _ = o.must_panic("AdjacencyMatrix::from(arcs):self-loop-accepted", || format!("{loopy:?}"), || AdjacencyMatrix::from(loopy.clone()));
+        let _ = o.must_panic("EdgeList::from(arcs):self-loop-accepted", || format!("{loopy:?}"), || EdgeList::from(loopy.clone()));
+    }
+    // documented: empty input panics
+    let _ = o.must_panic("AdjacencyList::from(no rows):accepted", String::new, || AdjacencyList::from(Vec::<BTreeSet<usize>>::new()));
+    let _ = o.must_panic("AdjacencyMap::from(no rows):accepted", String::new, || AdjacencyMap::from(Vec::<BTreeSet<usize>>::new()));
+    let _ = o.must_panic("AdjacencyMatrix::from(no arcs):accepted", String::new, || AdjacencyMatrix::from(Vec::<(usize, usize)>::new()));
+    let _ = o.must_panic("AdjacencyListWeighted::from(no rows):accepted", String::new, || AdjacencyListWeighted::<usize>::from(Vec::<BTreeMap<usize, usize>>::new()));
+}
+
+pub fn case(idx: u64, seed: u64, p: &Params, o: &mut CaseOut) {
+    let mut r = Rng::for_case(16, seed, idx);
+    let max = p.usize("max_order", 40);
+    let fam = r.below(gen::FAMILIES.len());
+    let n = if r.chance(0.7) { gen::small_order(&mut r, max.min(10)) } else { r.range(1, max) };
+    let mut m = gen::family(&mut r, fam, n);
+    // an isolated top vertex, so that "order = largest id + 1" is not an accident
+    let isolated_top = n >= 2 && r.chance(0.4);
+    if isolated_top {
+        let t = n - 1;
+        for a in m.arc_list() {
+            if a.0 == t || a.1 == t {
+                m.remove(a.0, a.1);
+            }
+        }
+    }
+    let from = r.below(4);
+    let start = build_any(from, &m);
+    let mut chain = vec![TYPES[from]];
+    // all ordered pairs from this source
+    for to in 0..4 {
+        let c = convert(&start, to);
+        obs_any(&c, &m, o, &format!("{}::from({})", TYPES[to], TYPES[from]));
+        let back = convert(&c, from);
+        o.check(back == start, &format!("round-trip {}->{}->{}", TYPES[from], TYPES[to], TYPES[from]), || "round trip is not the identity".into());
+        o.check(c == build_any(to, &m), &format!("{}::from({}):differs-from-direct-construction", TYPES[to], TYPES[from]), || String::new());
+    }
+    // a chain of 2-4 conversions
+    let mut cur = start.clone();
+    for _ in 0..r.range(2, 4) {
+        let to = r.below(4);
+        cur = convert(&cur, to);
+        chain.push(TYPES[to]);
+    }
+    obs_any(&cur, &m, o, &format!("chain {}", chain.join("->")));
+    o.check(convert(&cur, kind(&start)) == start, "chain-round-trip", || chain.join("->"));
+    weighted(&start, &m, o);
+    if r.chance(0.5) {
+        iter_builders(&mut r, &m, o);
+        o.bump("iter_builders");
+    }
+    let mut fp = Fp::new();
+    fp.us(from);
+    m.fingerprint(&mut fp);
+    o.fp = fp.0;
+    o.nontrivial = m.size() >= 2 && isolated_top;
+    o.bump(TYPES[from]);
+    o.bump(gen::FAMILIES[fam]);
+    if o.want_desc {
+        o.desc = format!("from {} family={} {} chain {}", TYPES[from], gen::FAMILIES[fam], m.describe(), chain.join("->"));
+    }
 }
